@@ -205,6 +205,8 @@ func (b Base) serialize(in any) (s string, err error) {
 	case string:
 		// escape single quotes with double single quotes
 		return fmt.Sprintf("'%s'", strings.ReplaceAll(v, "'", "''")), nil
+	case float64:
+		return expr.FormatFloat(v), nil
 	default:
 		return fmt.Sprintf("%v", v), nil
 	}
